@@ -31,7 +31,7 @@ ASSUMPTIONS = ['scale factors are powers of two, so the transformed input is exa
 EXHAUSTIVE = {'quick': False, 'thorough': False}
 HASH_SEEDS = {'quick': [0], 'thorough': [0, 1, 2]}
 MINIMA = {'quick': {'twin_geos_int_vs_str_ids': 12, 'text_label_dates': 10, 'share_bound_on_library_value': 15, 'impact_tie_cases': 8, 'pairs_with_restated_rows': 30, 'pairs_compared': 300, 'designs_compared': 400, 'distinct_nontrivial': 150, 'set:transforms': 6},
-          'thorough': {'twin_geos_int_vs_str_ids': 150, 'text_label_dates': 150, 'share_bound_on_library_value': 200, 'impact_tie_cases': 100, 'pairs_with_restated_rows': 400, 'pairs_compared': 4000, 'designs_compared': 6000, 'distinct_nontrivial': 2000, 'set:transforms': 6}}
+          'thorough': {'twin_geos_int_vs_str_ids': 150, 'text_label_dates': 150, 'share_bound_on_library_value': 200, 'impact_tie_cases': 100, 'pairs_with_restated_rows': 400, 'pairs_compared': 4000, 'designs_compared': 6000, 'distinct_nontrivial': 1800, 'set:transforms': 6}}
 N = {'quick': 420, 'thorough': 5000}
 CASE_TIMEOUT = {'quick': 300, 'thorough': 900}
 
